@@ -3,7 +3,7 @@
 // Two harnesses, both property-based over schedules:
 //
 //	kind "sched"  controlled schedules: 2-4 requests run as goroutines against a Store
-//	              wrapper that parks the caller at every store operation; the choice list of
+//	              wrapper that parks the caller before and after every store operation; the choice list of
 //	              the case decides which parked request proceeds.  Deadlock is a state
 //	              predicate over runtime.Stack snapshots (job "sched", TestCheck).
 //	kind "mix"    the same request mixes free-running against the bare MemoryStore under
@@ -192,6 +192,20 @@ func (sc *scheduler) before(op, key string) {
 	}
 	r.ops = append(r.ops, op+" "+key)
 	sc.park(r, op+" "+key)
+}
+
+// after is the second Store hook: the request parks again once the operation has returned,
+// so that the schedule also decides what happens between a store access and the handler's
+// next step (a registry update, a lock acquisition, the reply).
+func (sc *scheduler) after(op, key string) {
+	g := goid()
+	sc.mu.Lock()
+	r := sc.byGid[g]
+	sc.mu.Unlock()
+	if r == nil {
+		return
+	}
+	sc.park(r, "after-"+op+" "+key)
 }
 
 type schedOutcome struct {
@@ -654,6 +668,7 @@ func checkSched(c Case) pbt.Result {
 		sc.reqs = append(sc.reqs, &sreq{idx: i, step: s, built: b, grant: make(chan struct{})})
 	}
 	env.Store.Before = sc.before
+	env.Store.After = sc.after
 	env.Store.Counting(true)
 	out := sc.run(env, c.Choices)
 	res := pbt.Result{Classes: []string{"sched", fmt.Sprintf("sched:%d-requests", len(c.Reqs))}}
@@ -1470,7 +1485,7 @@ func genMixBody(t *rapid.T, c *Case, maxReqs int) {
 func genSched(t *rapid.T) Case {
 	c := Case{Kind: "sched"}
 	genMixBody(t, &c, 4)
-	c.Choices = rapid.SliceOfN(rapid.IntRange(0, 3), 0, 16).Draw(t, "choices")
+	c.Choices = rapid.SliceOfN(rapid.IntRange(0, 3), 0, 28).Draw(t, "choices")
 	return c
 }
 
@@ -1511,6 +1526,9 @@ func pairTemplates() []Step {
 		{Op: "login", Method: "POST", User: "alice", Pw: 0},
 		{Op: "put_service", Name: "svc-a", MD: 1, Pw: -1},
 		{Op: "put_service", Name: "svc-b", MD: 2, Pw: -1},
+		// requests for the entity that put_service svc-b is about to register
+		{Op: "sso", Method: "GET", Pw: -1, Issuer: 1, ACS: 2, Cookie: c0},
+		{Op: "launch", Name: "sc-y", Method: "GET", Pw: -1, Cookie: c0},
 		{Op: "del_service", Name: "svc-a", Pw: -1},
 		{Op: "get_service", Name: "svc-a", Pw: -1},
 		{Op: "list_services", Pw: -1},
@@ -1555,6 +1573,7 @@ func enumPairs(tier string, emit func(Case)) {
 		{Op: "seed_user", Name: "alice", Pw: 0, Profile: 0},
 		{Op: "put_service", Name: "svc-a", MD: 0, Pw: -1},
 		{Op: "put_shortcut", Name: "sc-x", Issuer: 0, Pw: -1},
+		{Op: "put_shortcut", Name: "sc-y", Issuer: 1, Pw: -1},
 	}
 	setup := []Step{{Op: "seed_session", Name: "alice", Delta: 60, Pw: -1}}
 	tp := pairTemplates()
@@ -1623,7 +1642,7 @@ var propSched = &pbt.Prop[Case]{
 	ID: "C20",
 	Rule: "sched: a seeded store (1-3 users, 1-3 services over 4 metadata variants, 1-2 shortcuts), 1-2 sequential logins (one possibly expired), then 2-4 concurrent requests over " +
 		"{sso creds/cookie, launch, login, put/del/get/list service, put/del/get/list user, put/del/get/list shortcut, del/get/list session, metadata} run under a parking Store wrapper; the case's choice list picks which parked request proceeds at every store operation. " +
-		"Exhaustive: for every unordered pair of 36 request templates (every handler, its error paths and the readers), all choice strings of 5 (thorough 8) binary decisions. " +
+		"Exhaustive: for every unordered pair of 38 request templates (every handler, its error paths and the readers), all choice strings of 5 (thorough 8) binary decisions. " +
 		"race job: the same mixes (2-5 requests) free-running over the bare MemoryStore and MemoryStore programs of 2-4 clients x <= 6 operations on 3 keys / 3 prefixes, including Puts of unencodable values and Gets into undecodable targets that must fail and leave the store usable (porcupine, sequential map model; deadlock predicate), each run 3 times under the race detector. " +
 		"non-trivial: at least two requests touch the registry lock or the same store key and one of them writes; store programs with >= 2 clients and a writer. distinct: sha256 of the JSON case.",
 	Gen:   genSched,
